@@ -56,13 +56,14 @@ Eval vm_compute in sk.
         nb = 1 + rng.randrange(6)
         en = rng.choice([0, 2, 4, 6])            # energy, fwdinv
         for integ in (0, 2, 3):
-            cases.append(("E", "E %d %d %d %d %d 0 0 4" % (seed, feat, nb, integ, en)))
+            cases.append(("E", "E %d %d %d %d %d 0 0 4 %d %d" % (seed, feat, nb, integ, en, rng.choice([0, 1, 2]), rng.choice([0, 1]))))
         # callback variants, incl. actuation disabled (the repaired defect) and energy
-        cases.append(("E", "E %d %d %d %d %d %d %d 4" % (seed, feat, nb, rng.choice([0, 2, 3]), en, rng.choice([0, 2048]), rng.choice([1, 2]))))
+        cases.append(("E", "E %d %d %d %d %d %d %d 4 %d %d" % (seed, feat, nb, rng.choice([0, 2, 3]), en, rng.choice([0, 2048]), rng.choice([1, 2]), rng.choice([0, 1, 2]), rng.choice([0, 1]))))
         for skip in (1, 2):
-            cases.append(("S", "S %d %d %d %d %d %d" % (seed, feat, nb, rng.choice([0, 2, 3]), en, skip)))
+            for solver in (0, 1, 2):
+                cases.append(("S", "S %d %d %d %d %d %d %d %d" % (seed, feat, nb, rng.choice([0, 2, 3]), en, skip, solver, rng.choice([0, 1]))))
     # fixed corpus: the repaired mj_step1 callback defect
-    cases.insert(0, ("E", "E 3 %d 3 0 0 2048 2 5" % ALLF))
+    cases.insert(0, ("E", "E 3 %d 3 0 0 2048 2 5 2 0" % ALLF))
     hyp_cases = []
     if prefix_calls and prefix_calls != ["<none>"]:
         for st in prefix_calls:
@@ -94,7 +95,7 @@ Eval vm_compute in sk.
                       signature={"site": {"E": "mj_step1/mj_step2", "S": "mj_forwardSkip", "H": "stage-commutation"}[kind], "what": what})
     ctx.cov["evaluations"] = len(allc)
     ctx.cov["distinct_nontrivial"] = len(nontriv)
-    ctx.cov["rule"] = ("random mjgen models (seed, feature mask, nbody) x integrators {Euler, implicit, implicitfast} x enable flags {energy, fwdinv} with a "
+    ctx.cov["rule"] = ("random mjgen models (seed, feature mask, nbody) x integrators {Euler, implicit, implicitfast} x solvers {PGS, CG, Newton} x cones x enable flags {energy, fwdinv} with a "
                        "random user update between the halves; callback variants incl. actuation disabled; skip stages POS/VEL with purity and idempotence; "
                        "commutation of the user update with every stage of the Coq-computed prefix; non-trivial = distinct case that ran without error (E cases: with nefc > 0)")
     ctx.cov["samples"] = [c[1] for c in (allc[0], allc[5], allc[-1])]
